@@ -1,6 +1,9 @@
 import RemocModel.Table.Lemmas
 import RemocModel.Table.OneWay
 import RemocModel.Props.C08
+import RemocModel.Table.ConnSys
+import RemocModel.Table.ConnBridge
+import RemocModel.Table.ConnTerm
 set_option linter.unusedSimpArgs false
 
 /-!
@@ -314,3 +317,139 @@ example :
   decide
 
 end Remoc.Table
+
+/-! ## The two-endpoint system (`Table/Conn.lean`): statements over ALL interleavings -/
+
+namespace Remoc.Table.Sys
+open Remoc.Wire Remoc.Table
+
+/-- **Nothing is in flight for a port that is not in the table** (all interleavings): in every
+reachable state, for every port number `p` without an entry in the table of a side, the wire towards
+that side holds no `SendFinish p` / `ReceiveClose p` / `ReceiveFinish p` and no answer
+(`PortOpened p _` / `Rejected p _`).  This is what makes re-use of a released number safe. -/
+theorem no_frame_for_absent_port (mpA cqA mpB cqB : Nat) (ls : List (Who × Lab)) (x : Who) (p : Nat) :
+    let s := run (init mpA cqA mpB cqB) ls
+    lookup (side s x).ep.ports p = none → noneFor (wireTo s x) p ∧ p ∉ respPorts (wireTo s x) := by
+  intro s hn
+  have hi := inv2_run _ ls (inv2_init mpA cqA mpB cqB)
+  cases x with
+  | A =>
+    refine ⟨hi.pba.rx_none p hn, fun hin => ?_⟩
+    have := reqInv_resp_connecting hi.r.ab p hin
+    simp only [side] at hn; rw [hn] at this; simp at this
+  | B =>
+    refine ⟨hi.pab.rx_none p hn, fun hin => ?_⟩
+    have := reqInv_resp_connecting hi.r.ba p hin
+    simp only [side] at hn; rw [hn] at this; simp at this
+
+/-- **A freed port is unreferenced** (all interleavings): whenever a step of side `x` removes the
+entry of port `p` from its table (`maybe_free_port`: all four flags set), no message naming `p` as
+`x`-local port is in flight towards `x` in the resulting state — so the number can be handed out
+again at once. -/
+theorem freed_port_unreferenced (mpA cqA mpB cqB : Nat) (ls : List (Who × Lab)) (x : Who) (l : Lab) (s' : St)
+    (p : Nat) (st : PortSt) :
+    let s := run (init mpA cqA mpB cqB) ls
+    step s x l = some s' → lookup (side s x).ep.ports p = some st → lookup (side s' x).ep.ports p = none →
+    noneFor (wireTo s' x) p ∧ p ∉ respPorts (wireTo s' x) := by
+  intro s hs _ hn
+  have : s' = run (init mpA cqA mpB cqB) (ls ++ [(x, l)]) := by
+    rw [run_append]; show s' = run s [(x, l)]; simp only [run, hs]
+  rw [this] at hn ⊢
+  exact no_frame_for_absent_port mpA cqA mpB cqB (ls ++ [(x, l)]) x p hn
+
+/-- non-vacuity: port 1@A / 7@B is opened, all four halves are dropped; the last delivery at A frees
+port 1 (entry present before, absent after) and nothing for port 1 is in flight towards A -/
+example :
+    let pre : List (Who × Lab) := [(.A, .startConnect 1 true), (.A, .dispConn), (.B, .deliver), (.B, .takeReq true),
+      (.B, .acceptReq 1 7), (.B, .dispPort), (.A, .deliver), (.A, .dropSender 1), (.A, .dropReceiver 1),
+      (.B, .dropSender 7), (.B, .dropReceiver 7), (.A, .dispPort), (.A, .dispPort), (.B, .dispPort), (.B, .dispPort),
+      (.A, .deliver)]
+    let s := run (init 4 2 4 2) pre
+    (lookup s.a.ep.ports 1).isSome ∧ (lookup (run s [(.A, .deliver)]).a.ep.ports 1) = none ∧
+    (step s .A .deliver).isSome ∧ s.a.ep.allocated = [1] ∧ (run s [(.A, .deliver)]).a.ep.allocated = [] := by
+  decide
+
+end Remoc.Table.Sys
+
+namespace Remoc.Table.Sys
+open Remoc.Wire Remoc.Table
+
+/-- **Clean termination** (all interleavings, any `max_ports` / `connect_queue`).  In every reachable
+state in which every API object of both applications has been dropped (clients, listeners, held
+requests, senders, receivers — in any order, interleaved with any delivery schedule) and in which
+the runtime has nothing left to do (no internal label enabled): both dispatchers have sent and
+received `Goodbye` (`should_terminate` held, `run` returns `Ok`), nothing is in flight in either
+direction, and no connected port entry is left in either table — every established port was
+reclaimed on both sides. -/
+theorem clean_termination (mpA cqA mpB cqB : Nat) (ls : List (Who × Lab)) :
+    let s := run (init mpA cqA mpB cqB) ls
+    AllDropped s.a → AllDropped s.b → Quiescent s →
+    (s.a.ep.goodbyeSent = true ∧ s.b.ep.goodbyeSent = true ∧ s.a.ep.goodbyeReceived = true ∧ s.b.ep.goodbyeReceived = true) ∧
+    s.toA = [] ∧ s.toB = [] ∧
+    (∀ p c, lookup s.a.ep.ports p ≠ some (.connected c)) ∧ (∀ p c, lookup s.b.ep.ports p ≠ some (.connected c)) := by
+  intro s ha hb hq
+  have hi := inv5_run _ ls (inv5_init mpA cqA mpB cqB)
+  obtain ⟨na, nb⟩ := hq.noInt
+  obtain ⟨g1, g2, g3, g4, w1, w2, c1, c2⟩ := hi.view.terminated ha hb na nb
+  exact ⟨⟨g1, g2, g3, g4⟩, w2, w1, c1, c2⟩
+
+/-- **… and everything is reclaimed.**  What can be left over in such a state on a side are only
+requests that the application issued after the peer had already said `Goodbye` (a connecting entry
+whose `OpenPort` was never answered, a connect request never dispatched): the real dispatcher has
+returned and drops them with the `ChMux` object.  Where there is none — the event queues are empty
+and no entry is connecting — the table is empty and every port number is free again. -/
+theorem clean_termination_reclaims (mpA cqA mpB cqB : Nat) (ls : List (Who × Lab)) (x : Who) :
+    let s := run (init mpA cqA mpB cqB) ls
+    AllDropped s.a → AllDropped s.b → Quiescent s →
+    (side s x).connQ = [] → (side s x).portQ = [] → (∀ p, lookup (side s x).ep.ports p ≠ some .connecting) →
+    (side s x).ep.ports = [] ∧ (side s x).ep.allocated = [] := by
+  intro s ha hb hq h1 h2 h3
+  have hi := inv5_run _ ls (inv5_init mpA cqA mpB cqB)
+  obtain ⟨_, _, _, c1, c2⟩ := clean_termination mpA cqA mpB cqB ls ha hb hq
+  have hal : AllocInv (side s x) := by
+    cases x
+    · exact hi.i4.aa
+    · exact hi.i4.ab
+  have hcn : ∀ p c, lookup (side s x).ep.ports p ≠ some (.connected c) := by
+    cases x
+    · exact c1
+    · exact c2
+  have hnone : ∀ p, lookup (side s x).ep.ports p = none := by
+    intro p
+    cases hl : lookup (side s x).ep.ports p with
+    | none => rfl
+    | some st =>
+      cases st with
+      | connecting => exact absurd hl (h3 p)
+      | connected c => exact absurd hl (hcn p c)
+  refine ⟨ports_nil_of_lookup _ hnone, ?_⟩
+  cases hall : (side s x).ep.allocated with
+  | nil => rfl
+  | cons p rest =>
+    have := (hal.core.mem p).mp (by rw [hall]; simp)
+    simp [hnone p, heldNums, h1, h2, connPorts, accPorts] at this
+
+/-- **No livelock in shutdown (or anywhere)**: every internal step strictly decreases `potential`, a
+natural number; so from any state only finitely many internal steps are possible before the state
+is quiescent, whatever the interleaving. -/
+theorem internal_steps_terminate (s s' : St) (x : Who) (l : Lab) (hl : l.internal = true)
+    (h : step s x l = some s') : potential s' < potential s :=
+  potential_decreases s s' x l hl h
+
+/-- non-vacuity: a run that opens a port, uses nothing, drops every object on both sides in mixed
+order and lets the runtime finish: the hypotheses of `clean_termination` hold in the final state -/
+example :
+    let s := run (init 2 1 2 1) [(.A, .startConnect 11 true), (.A, .dispConn), (.B, .deliver), (.B, .takeReq true),
+      (.B, .acceptReq 11 50), (.B, .dispPort), (.A, .deliver),
+      (.A, .dropSender 11), (.A, .dropReceiver 11), (.B, .dropSender 50), (.B, .dropReceiver 50),
+      (.A, .dispPort), (.A, .dispPort), (.B, .dispPort), (.B, .dispPort), (.A, .deliver), (.A, .deliver), (.B, .deliver), (.B, .deliver),
+      (.A, .dropClients), (.A, .dropListener), (.B, .dropClients), (.B, .dropListener),
+      (.A, .dispConn), (.A, .dispListener), (.B, .dispConn), (.B, .dispListener),
+      (.A, .deliver), (.A, .deliver), (.B, .deliver), (.B, .deliver), (.A, .goodbye), (.B, .deliver), (.B, .goodbye), (.A, .deliver)]
+    (s.a.clientsAlive = false ∧ s.a.listenerAlive = false ∧ s.a.held = [] ∧ s.a.senders = [] ∧ s.a.receivers = []) ∧
+    (s.b.clientsAlive = false ∧ s.b.listenerAlive = false ∧ s.b.held = [] ∧ s.b.senders = [] ∧ s.b.receivers = []) ∧
+    ([Lab.dispConn, .dispPort, .dispListener, .goodbye, .deliver].all (fun l => (step s .A l).isNone && (step s .B l).isNone)) = true ∧
+    potential s = 0 := by
+  decide
+
+end Remoc.Table.Sys
